@@ -49,7 +49,8 @@ def check(run):
     depends_on(run, "C06", {"MERGE", "KEYS", "COUNT", "VALUE", "COPY"})
     depends_on(run, "C17", {"ORDER", "PROPAGATE"})
     depends_on(run, "C03", {"NEW", "C0"})
-    depends_on(run, "C15", {"CTOR", "DEFAULTS"}, only=lambda rule, inst: inst.startswith("IncrementalSage"))
+    depends_on(run, "C15", {"CTOR", "DEFAULTS", "BUDGET"},
+               only=lambda rule, inst: inst.startswith("IncrementalSage") and (rule != "BUDGET" or inst.endswith("default-imputer")))
 
 
 _I = "ixai/explainer/sage/incremental.py"
